@@ -202,8 +202,8 @@ func TestRecordC08(t *testing.T) {
 	for k := 0; k < n && res.Fatal == ""; k++ {
 		r := rand.New(rand.NewSource(seed*1000003 + int64(k)))
 		nt := 2
-		if k%7 == 3 {
-			nt = 1 + 2*r.Intn(2) // 1 or 3
+		if k%7 == 3 && os.Getenv("VERIF_NT_FIXED") == "" {
+			nt = 1 + 2*r.Intn(2) // 1 or 3 (one more TLC run each: thorough tier)
 		}
 		o := schedOpts{n: 1 + k%5, steps: 10 + r.Intn(25), faults: k%3 == 2, disallow: k%2 == 0,
 			kinds: []string{"classic", "basic", "both", "both"}[k%4]}
@@ -282,6 +282,49 @@ func TestRecordC09(t *testing.T) {
 		}
 	}
 	res.AddExtra("crash_points", points)
+	// reject windows: for every scenario, every CAS call of the target is the start of a window of failing
+	// calls (a dry run counts the calls), followed by recovery time and the obligation "settled"
+	wsc, lens := map[string]bool{"join-observe": true, "leave-unregister": true, "claim": true, "basic-observe": true}, []int{1, 3}
+	if os.Getenv("VERIF_WINDOWS") == "full" {
+		wsc, lens = nil, []int{1, 2, 3}
+	}
+	windows := 0
+	for _, sc := range scenarios() {
+		if wsc != nil && !wsc[sc.name] {
+			continue
+		}
+		var calls []int
+		w := oneTrace(t, 2, func(w *world) {
+			calls, _ = runScenario(w, sc, crashPlan{rejLen: -1}, seed)
+			w.finish("settled")
+		})
+		if w.fatal != "" {
+			res.Fatal = sc.name + " window dry: " + w.fatal
+			return
+		}
+		for inc, k := range calls {
+			for a := 1; a <= k; a++ {
+				for _, l := range lens {
+					plan := crashPlan{inc: inc + 1, rejFrom: a, rejLen: l}
+					w := oneTrace(t, 2, func(w *world) {
+						runScenario(w, sc, plan, seed)
+						w.finish("settled")
+					})
+					label := "c09/" + sc.name + "/" + plan.String()
+					if w.fatal != "" {
+						res.Fatal = label + ": " + w.fatal
+						return
+					}
+					windows++
+					if err := sink.add(w, label); err != nil {
+						res.Fatal = err.Error()
+						return
+					}
+				}
+			}
+		}
+	}
+	res.AddExtra("reject_windows", windows)
 	res.AddExtra("crash_points_unreached", unreached)
 	// wipe during LEAVING: the stopping lifecycler's heartbeat re-registers it as LEAVING with its tokens
 	for _, unreg := range []bool{false, true} {
